@@ -63,10 +63,20 @@ def fresh_value(I, P, ty, name, depth=0):
     if M.int_type(ty):
         return I.new_atom(ty, name)
     adt = P.adts.get(ty)
+    if adt is None and "::" in ty and "<" not in ty:
+        # the other crate names a re-exported type by its public path: unique match on the type's own name
+        cands = [a for n, a in P.adts.items() if n.rsplit("::", 1)[-1] == ty.rsplit("::", 1)[-1]]
+        if len(cands) == 1:
+            adt = cands[0]
+            ty = adt["name"]
     if adt and depth < 3:
         if adt["kind"] == "Struct":
             return AggV(ty, [fresh_value(I, P, fty, f"{name}.{fname}", depth + 1) for fname, fty in adt["variants"][0]["fields"]])
         if adt["kind"] == "Enum":
+            forced = getattr(I, "force_enum", {}).get(ty)
+            if forced is not None:
+                v = adt["variants"][forced]
+                return EnumV(ty, forced, tuple(fresh_value(I, P, fty, f"{name}.{v['name']}.{fname}", depth + 1) for fname, fty in v["fields"]), len(adt["variants"]))
             alts = {}
             for i, v in enumerate(adt["variants"]):
                 alts[i] = tuple(fresh_value(I, P, fty, f"{name}.{v['name']}.{fname}", depth + 1) for fname, fty in v["fields"])
@@ -379,6 +389,30 @@ def m_option_map(I, st, args, dest_ty, fn, b, line, fref):
     return EnumV("Option", None, (), 2, v.ddeps | d, {0: (), 1: (r,)})
 
 
+def m_option_and_then(I, st, args, dest_ty, fn, b, line, fref):
+    """Option::and_then(f): None stays None, Some(x) becomes f(x)"""
+    v, clos = args[0], args[1]
+    d = _deps(I, st, args)
+    if v.kind == "enum" and v.variant == 0:
+        return EnumV("Option", 0, (), 2, v.ddeps)
+    pay = None
+    if v.kind == "enum":
+        pay = v.fields[0] if v.variant == 1 and v.fields else (v.alts[1][0] if v.alts and v.alts.get(1) else None)
+    if pay is None:
+        return m_top(I, st, args, dest_ty)
+    r = I.call_closure(st, clos, [pay])
+    if r is None or r.kind != "enum":
+        return m_top(I, st, args, dest_ty)
+    if v.variant == 1:
+        return r
+    if r.variant == 0:
+        return EnumV("Option", 0, (), 2, v.ddeps | r.ddeps)
+    some = r.fields if r.variant == 1 else (r.alts or {}).get(1)
+    if some is None:
+        return m_top(I, st, args, dest_ty)
+    return EnumV("Option", None, (), 2, v.ddeps | r.ddeps | d, {0: (), 1: tuple(some)})
+
+
 def m_panic(I, st, args, dest_ty, fn, b, line, fref):
     I.event("assert", fn, b, line, akind="panic-call:" + fref.get("def", "?"), status="reached", witness=None, vals=[], exp=False)
     st.dead = True
@@ -585,6 +619,7 @@ MODELS = [(re.compile(p), f) for p, f in [
     (r"from_str_radix$", m_from_str_radix),
     (r"Option::<T>::unwrap$|Result::<T, E>::unwrap$|::expect$", m_unwrap),
     (r"Option::<T>::unwrap_or$", m_unwrap_or),
+    (r"Option::<T>::and_then(::<|$)", m_option_and_then),
     (r"Option::<T>::map::<", m_option_map),
     (r"Option::<T>::map$", m_option_map),
     (r"panicking::|::panic_|begin_panic|unwrap_failed|expect_failed", m_panic),
